@@ -142,6 +142,13 @@ def run(chk):
         chk.undecided.append(f"R1v: _union_impl could not be interpreted ({str(e)[:140]})")
 
     try:
+        from .c06 import _join_scenarios
+
+        _join_scenarios(chk, _mo1(chk), rule="R1v")
+        decided_iids |= {"join-backend", "join-grouped-left", "join-grouped-right", "join-self", "join-suffix"}
+    except (AnalysisError, SymbolicBranch) as e:
+        chk.undecided.append(f"R1v: join could not be interpreted ({str(e)[:140]})")
+    try:
         from .. import pipesim as _ps14
         from .c17 import m_types_env as _mte14
 
